@@ -28,19 +28,21 @@ PROP = {
     "rule": "a case is one instance of one law (reflexivity of a value; antisymmetry, cmp=Equal<=>==, symmetry of ==, "
             "== => equal hashes for a pair; transitivity of cmp and of == for a triple): 2-3 questions (cmp/eq/heq) put "
             "to the real Value; distinct = distinct op sequence (sha1), non-trivial = at least 2 ops",
-    "level_text": "Proof: on the fragment F (Extant, Boolean, Int32, Int64, UInt32, UInt64, BigInt, BigUint, Text and "
+    "level_text": "Proof: on the fragment F (Extant, Boolean, Int32, Int64, UInt32, UInt64, BigInt, BigUint, Text, Data and "
                   "records over F nested to any depth with attributes, items and slots) Value::compare is reflexive, "
                   "antisymmetric, transitive and total, == is an equivalence, compare = Equal exactly when ==, and "
                   "equal values feed the same stream to the hasher -- for ALL values (structural induction), so "
-                  "sort_by / BTreeMap / hash maps / take-drop are well defined for such keys. Outside F (a Float64 or "
-                  "a Data anywhere) the laws are false of the current code (F13): witnesses proved on the model and "
-                  "replayed on Value. The model (all 144 cells, PartialEq, hash key, exact f64 arithmetic) is tied to "
+                  "sort_by / BTreeMap / hash maps / take-drop are well defined for such keys; for ALL values (floats "
+                  "included) compare and == are reflexive and equal values hash equally (after the fix: commits "
+                  "F13-negzero, F13-data-order, F13-inf-refl). With a Float64 anywhere the other laws are false of the "
+                  "current code (F13b/c/d, behavioural choices): witnesses proved on the model and replayed on Value. The model (all 144 cells, PartialEq, hash key, exact f64 arithmetic) is tied to "
                   "the real Value by differential execution on all pairs of a 220-value boundary pool, all triples "
                   "of a sub-pool, and generated/mutated values; the law monitor runs on the implementation's "
                   "answers alone and classifies every violation by (law, kinds).",
     "level_note": "Hash agreement is observed through std's DefaultHasher (a 64-bit collision would be reported as a "
                   "model disagreement); num-bigint, f64 hardware arithmetic and str/Vec hashing are modelled, not "
-                  "verified. Float/Data cells are covered by the exact model + correspondence, not by the theorems.",
+                  "verified. Float cells are covered by the exact model + correspondence (and by the all-values theorems for "
+                  "reflexivity and hash coherence), not by the order theorems.",
     "trusted_base": COMMON_TRUST + [
         "modelled, not verified: num-bigint (cmp, to_f64, TryFrom), IEEE-754 f64 (as casts, partial_cmp, subtraction), "
         "std Hash for str/Vec/enum discriminants, std DefaultHasher as the observer of hash equality",
